@@ -97,7 +97,7 @@ def run(ctx):
     thorough = ctx.tier == "thorough"
     cases = []
     # generated libraries
-    n_lib = ctx.scaled(28, 300)
+    n_lib = ctx.scaled(16, 100)
     for i in range(n_lib):
         lib = gen_library(ctx.rng)
         kinds = ["flatten"]
@@ -110,7 +110,7 @@ def run(ctx):
             kinds = ["flatten", "xml"]
         cases.append({"kind": "lib", "src": "generated", "text": lib["text"], "snap": 3,
                       "auto": {"seed": ctx.rng.randrange(1 << 30), "kinds": kinds, "max_reqs": 10,
-                               "n2": ctx.scaled(10, 40), "n3": ctx.scaled(8, 40), "n4": ctx.scaled(0, 20)}})
+                               "n2": ctx.scaled(8, 20), "n3": ctx.scaled(6, 15), "n4": ctx.scaled(0, 8)}})
     # every test model
     files = sorted(glob.glob(core.REPO + "/test/models/*.mo"))
     for f in files:
@@ -122,16 +122,16 @@ def run(ctx):
             continue
         cases.append({"kind": "lib", "src": os.path.basename(f), "text": text, "snap": 2,
                       "auto": {"seed": ctx.rng.randrange(1 << 30), "kinds": ["flatten"], "max_reqs": 8,
-                               "n2": ctx.scaled(6, 64), "n3": ctx.scaled(3, 40), "n4": ctx.scaled(0, 20)}})
+                               "n2": ctx.scaled(4, 16), "n3": ctx.scaled(1, 8), "n4": ctx.scaled(0, 4)}})
     # casadi generate on a few test models (generate() flattens the caller's tree without copying it first)
     for name in ["Spring.mo", "SimpleCircuit.mo", "NestedClasses.mo", "ConstantReferences.mo", "Aircraft.mo", "Connector.mo"]:
         f = core.REPO + "/test/models/" + name
         if os.path.exists(f):
             cases.append({"kind": "lib", "src": "casadi:" + name, "text": open(f).read(), "snap": 0,
                           "auto": {"seed": ctx.rng.randrange(1 << 30), "kinds": ["casadi", "flatten"], "max_reqs": 6,
-                                   "n2": ctx.scaled(5, 30), "n3": ctx.scaled(2, 20)}})
+                                   "n2": ctx.scaled(4, 12), "n3": ctx.scaled(1, 6)}})
     # CLI: several -m on one library tree vs separate runs
-    n_cli = ctx.scaled(6, 40)
+    n_cli = ctx.scaled(6, 20)
     for i in range(n_cli):
         lib = gen_library(ctx.rng)
         models = [k for k, v in lib["classes"].items() if v == "model"]
